@@ -68,7 +68,7 @@ theorem utxoUsed_step (r : Reserved) (holder i x : String) :
     funext e
     by_cases he : e.1 = x
     · have : (e.1 != i) = true := by simp [he, hx]
-      simp [he, this, hx]
+      simp [he, hx]
     · simp [he]
 
 theorem utxoUsed_markUsed (r : Reserved) (holder : String) (ins : List String) (x : String) :
